@@ -24,6 +24,7 @@ func main() {
 	}
 	r := lib.NewRun(*prop, *tier, *seed)
 	mon.ReplayFile = *replay
+	mon.LoadReplay(r)
 	f(r)
 	os.Exit(r.Finish())
 }
